@@ -49,20 +49,67 @@ pub fn with_record<R>(
         .build())
 }
 
+/// The builders offer a singular and a bulk method for everything that comes in lists (`appender`/`appenders`,
+/// `filter`/`filters`, `logger`/`loggers`), all documented as *adding*. A list is therefore attached by a mix of
+/// calls: `items` is cut into consecutive runs at the positions whose bit is set in `style`; a run of one is added
+/// by the singular method when its bit in the upper half is set.
+pub fn runs_by_style<T>(items: Vec<T>, style: u64) -> Vec<(Vec<T>, bool)> {
+    let mut out: Vec<(Vec<T>, bool)> = vec![];
+    for (i, it) in items.into_iter().enumerate() {
+        if i == 0 || (style >> (i % 32)) & 1 == 1 {
+            out.push((vec![], false));
+        }
+        out.last_mut().unwrap().0.push(it);
+    }
+    for (ci, run) in out.iter_mut().enumerate() {
+        run.1 = run.0.len() == 1 && (style >> (32 + ci % 32)) & 1 == 1;
+    }
+    out
+}
+
+/// Style bits for a named item of a configuration (a pure function of the logical configuration).
+pub fn style_of(cfg: &LCfg, salt: &str) -> u64 {
+    let first = cfg.loggers.first().map(|l| (l.name.as_str(), l.level, l.appenders.len()));
+    crate::engine::fnv64(format!("{}|{}|{}|{:?}|{:?}|{}", cfg.appenders.len(), cfg.loggers.len(), cfg.root_level, cfg.root_appenders.len(), first, salt).as_bytes())
+}
+
+/// As `with_record`, with the call site filled in (module path, file, line).
+pub fn with_record_at<R>(target: &str, level: log::Level, msg: &str, site: Option<(&str, &str, u32)>, f: impl FnOnce(&log::Record) -> R) -> R {
+    f(&log::Record::builder()
+        .args(format_args!("{}", msg))
+        .level(level)
+        .target(target)
+        .module_path(site.map(|s| s.0))
+        .file(site.map(|s| s.1))
+        .line(site.map(|s| s.2))
+        .build())
+}
+
 pub fn root_of(cfg: &LCfg) -> Root {
-    Root::builder()
-        .appenders(cfg.root_appenders.iter().cloned())
-        .build(LEVEL_FILTERS[cfg.root_level as usize])
+    let mut b = Root::builder();
+    for (run, single) in runs_by_style(cfg.root_appenders.clone(), style_of(cfg, "root")) {
+        b = if single { b.appender(run[0].clone()) } else { b.appenders(run) };
+    }
+    b.build(LEVEL_FILTERS[cfg.root_level as usize])
 }
 
 pub fn loggers_of(cfg: &LCfg) -> Vec<CLogger> {
     cfg.loggers
         .iter()
         .map(|l| {
-            CLogger::builder()
-                .appenders(l.appenders.iter().cloned())
-                .additive(l.additive)
-                .build(l.name.clone(), LEVEL_FILTERS[l.level as usize])
+            let mut b = CLogger::builder();
+            let style = style_of(cfg, &l.name);
+            // `additive` before, between or after the appender calls
+            if style & (1 << 62) != 0 {
+                b = b.additive(l.additive);
+            }
+            for (run, single) in runs_by_style(l.appenders.clone(), style) {
+                b = if single { b.appender(run[0].clone()) } else { b.appenders(run) };
+            }
+            if style & (1 << 62) == 0 {
+                b = b.additive(l.additive);
+            }
+            b.build(l.name.clone(), LEVEL_FILTERS[l.level as usize])
         })
         .collect()
 }
@@ -81,17 +128,27 @@ pub fn build_config_failing(cfg: &LCfg, sink: &Sink, tag: &str, failing: &[bool]
 /// `extra`: further declared appenders that no logger references.
 pub fn build_config_extra(cfg: &LCfg, sink: &Sink, tag: &str, failing: &[bool], extra: Vec<Appender>) -> Result<Config, String> {
     let mut b = Config::builder().appenders(extra);
-    for (i, a) in cfg.appenders.iter().enumerate() {
-        b = b.appender(Appender::builder().build(
-            a.clone(),
-            Box::new(Cap {
-                name: format!("{}{}", tag, a),
-                sink: sink.clone(),
-                fail: failing.get(i).copied().unwrap_or(false),
-            }),
-        ));
+    let apps: Vec<Appender> = cfg
+        .appenders
+        .iter()
+        .enumerate()
+        .map(|(i, a)| {
+            Appender::builder().build(
+                a.clone(),
+                Box::new(Cap {
+                    name: format!("{}{}", tag, a),
+                    sink: sink.clone(),
+                    fail: failing.get(i).copied().unwrap_or(false),
+                }),
+            )
+        })
+        .collect();
+    for (mut run, single) in runs_by_style(apps, style_of(cfg, "config.appenders")) {
+        b = if single { b.appender(run.pop().unwrap()) } else { b.appenders(run) };
     }
-    b = b.loggers(loggers_of(cfg));
+    for (mut run, single) in runs_by_style(loggers_of(cfg), style_of(cfg, "config.loggers")) {
+        b = if single { b.logger(run.pop().unwrap()) } else { b.loggers(run) };
+    }
     b.build(root_of(cfg)).map_err(|e| format!("{}", e))
 }
 
